@@ -26,7 +26,8 @@ namespace Pm.Dev2
 @[simp] theorem clipRead_conn (c : CS) : (clipRead c).dev.conn = c.dev.conn := by unfold clipRead; split <;> rfl
 @[simp] theorem clipRead_loggedIn (c : CS) : (clipRead c).dev.loggedIn = c.dev.loggedIn := by unfold clipRead; split <;> rfl
 @[simp] theorem clipRead_fd (c : CS) : (clipRead c).dev.fd = c.dev.fd := by unfold clipRead; split <;> rfl
-@[simp] theorem clipRead_curAddr (c : CS) : (clipRead c).dev.curAddr = c.dev.curAddr := by unfold clipRead; split <;> rfl
+@[simp] theorem clipRead_cur (c : CS) : (clipRead c).dev.cur = c.dev.cur := by unfold clipRead; split <;> rfl
+@[simp] theorem clipRead_naddr (c : CS) : (clipRead c).dev.naddr = c.dev.naddr := by unfold clipRead; split <;> rfl
 @[simp] theorem clipRead_tstate (c : CS) : (clipRead c).dev.tstate = c.dev.tstate := by unfold clipRead; split <;> rfl
 @[simp] theorem clipRead_tcmd (c : CS) : (clipRead c).dev.tcmd = c.dev.tcmd := by unfold clipRead; split <;> rfl
 @[simp] theorem clipRead_statConnects (c : CS) : (clipRead c).dev.statConnects = c.dev.statConnects := by unfold clipRead; split <;> rfl
